@@ -113,7 +113,7 @@ def check_chain(case, ev):
         return Finding(
             "chain/multi-differs-from-chain:%s" % "+".join(stages),
             "features %s, line %r: multi-feature %r, chain of single-feature anonymizers %r" % (stages, case["lines"][i] if i < len(case["lines"]) else None, ml[i] if i < len(ml) else None, cl[i] if i < len(cl) else None),
-            case,
+            orig,
         )
     return None
 
